@@ -37,6 +37,13 @@ def stepIds (st : IdsSt) (args : List String) : IdsSt × String :=
   let n (t : String) : Nat := t.toNat?.getD 0
   match args with
   | ["open", p, acc, ok] => out st (spStep Cfg.current st.sw (.prim (.hopen (n p) (n acc) (ok != "0")))) 'f'
+  | ["openbad", p, acc, stage] =>
+    -- an Hopen that cannot succeed: <stage> = where it gives up (os | magic | dd)
+    let stg : OpenStage := match stage with
+      | "dd" => .dd
+      | "magic" => .magic
+      | _ => .os
+    out st (spStep Cfg.current st.sw (.prim (.hopenbad (n p) (n acc) stg))) 'f'
   | ["close", h] => out st (spStep Cfg.current st.sw (.prim (.hclose (tok st h)))) 'f'
   | ["startaccess", h, fnd, wr] => out st (spStep Cfg.current st.sw (.prim (.startaccess (tok st h) (fnd != "0") (wr != "0")))) 'a'
   | ["endaccess", h] => out st (spStep Cfg.current st.sw (.prim (.endaccess (tok st h)))) 'a'
@@ -50,6 +57,9 @@ def stepIds (st : IdsSt) (args : List String) : IdsSt × String :=
     match lookF Cfg.current st.sw.w (tok st h) with
     | .file _ r => (st, s!"{r.refcount},{r.attach}")
     | _ => (st, "fail")
+  | ["groups"] =>
+    -- use count and number of atoms of FIDGROUP and AIDGROUP, use count of DDGROUP
+    (st, s!"{st.sw.w.fidg.count},{st.sw.w.fidg.live.length},{st.sw.w.aidg.count},{st.sw.w.aidg.live.length},{st.sw.w.ddUse}")
   | ["live"] => (st, s!"{(liveFids st.sw.w).length},{(liveAids st.sw.w).length},{st.sw.w.frecs.length},{st.sw.w.arecs.length}")
   | ["sdpack", slot, idx] =>
     -- the ids SDstart / SDselect / SDgetdimid build for netCDF slot `slot`, object index `idx`
